@@ -187,11 +187,43 @@ def run_head(keys):
     return out
 
 
+def run_alter(spec):
+    """the REAL alter_scenario_if_known_to_fail on the full product of the given families (itertools.product order)"""
+    import itertools
+    from src.scenarios.run_scenario import ScenarioRunner
+    runner = ScenarioRunner()
+    fams = [f for f, _ in spec["fams"]]
+    vals = [v for _, v in spec["fams"]]
+    rest = {k: v for k, v in spec["rest"]}
+    table, out = [""], {}
+    with quiet():
+        for iso in spec["countries"]:
+            codes = []
+            for combo in itertools.product(*vals):
+                o = dict(zip(fams, combo))
+                o.update(rest)
+                snap = dict(o)
+                try:
+                    r = runner.alter_scenario_if_known_to_fail(o, iso)
+                    txt = ",".join(f"{k}={r.get(k, '<gone>')}" for k in o if r.get(k, "<gone>") != o[k])
+                    if o != snap:
+                        txt = "<caller dictionary modified>"
+                except BaseException as e:
+                    txt = "<rejected>" if isinstance(e, AssertionError) else "<" + classify(e) + ">"
+                if txt not in table:
+                    table.append(txt)
+                codes.append(table.index(txt))
+            out[iso] = codes
+    return {"table": table, "outcomes": out}
+
+
 def run(payload):
     rows = Rows()
     res = {"dispatch": [run_dispatch(c, rows) for c in payload.get("dispatch", [])],
            "history": [run_history(c, rows) for c in payload.get("history", [])],
            "head": run_head(payload.get("head", [])) if payload.get("head") else []}
+    if payload.get("alter"):
+        res["alter"] = run_alter(payload["alter"])
     res["rows"] = rows.used
     res["all_iso3"] = [str(x) for x in rows.table["iso3"]]
     res["columns"] = [str(c) for c in rows.table.columns]
